@@ -78,7 +78,7 @@ def _model_step(state, entry):
 
 
 def _valid_case(case) -> bool:
-    if not isinstance(case, dict) or not isinstance(case.get("batches"), list):
+    if not isinstance(case, dict) or not isinstance(case.get("batches"), list) or case.get("via", "model") not in ("model", "aggregator"):
         return False
     for b in case["batches"]:
         if not isinstance(b, list):
@@ -110,9 +110,46 @@ def _diff_sig(impl, cand):
     return "other"
 
 
+class _ViaAggregator:
+    """The same law observed one level up: every batch is delivered as an ErrorLogMsg to the real aggregator (message
+    handler -> Aggregator.from_engine.error_log_changed) and the aggregated entries are read from the unit's EngineData."""
+
+    def __init__(self):
+        from vp.harness.agg_h import AggHarness
+        self.h = AggHarness(db="memory")
+        self.h.__enter__()
+        for op in ({"op": "register", "engine": "E1"}, {"op": "connect", "engine": "E1"},
+                   {"op": "uod_info", "engine": "E1", "readings": ["A"], "interval": 1.0, "annotate": []}):
+            self.h.apply(op)
+        if self.h.engine_data("E1") is None:
+            raise RuntimeError("harness: engine E1 did not register")
+
+    def aggregate_with(self, log):
+        r = self.h.apply({"op": "msg", "engine": "E1", "type": "ErrorLogMsg", "fields": {"log": log}})
+        if r.get("skipped") is not None or r.get("reply") != "SuccessMessage":
+            raise RuntimeError("harness: ErrorLogMsg not delivered: %r" % (r,))
+
+    @property
+    def entries(self):
+        return self.h.engine_data("E1").error_log.entries
+
+    def close(self):
+        self.h.__exit__(None, None, None)
+
+
 def analyse(case):
     """-> (violations, info) ; info has merges/dups/open counts of the accepted model path."""
-    agg = AggMdl.AggregatedErrorLog.empty()
+    via = case.get("via", "model") if isinstance(case, dict) else "model"
+    if via == "aggregator":
+        agg = _ViaAggregator()
+        try:
+            return _analyse(case, agg, ":via-aggregator")
+        finally:
+            agg.close()
+    return _analyse(case, AggMdl.AggregatedErrorLog.empty(), "")
+
+
+def _analyse(case, agg, suffix):
     cands = [((), 0, 0, 0, 0)]
     n_in = 0
     out: list[Violation] = []
@@ -120,6 +157,8 @@ def analyse(case):
         log = Mdl.ErrorLog(entries=[Mdl.ErrorLogEntry(message=m, severity=s, created_time=float(t)) for m, s, t in batch])
         try:
             agg.aggregate_with(log)
+        except RuntimeError:
+            raise
         except Exception as ex:   # the subject (not the harness) failed
             return [Violation("aggregate-raises:%s" % type(ex).__name__, "aggregate_with raised %s: %s on batch %d" % (type(ex).__name__, ex, bi), case)], \
                 {"merges": 0, "dups": 0, "open": 0, "n": n_in}
@@ -138,7 +177,7 @@ def analyse(case):
             accounted = {c[1] + c[2] for c in cands}
             if all(total + a < n_in for a in accounted):
                 kind = "lost:" + kind
-            out.append(Violation("aggregate:" + kind,
+            out.append(Violation("aggregate:" + kind + suffix,
                                  "after batch %d the aggregate is %r; the stated law gives %r (inputs so far %d, sum of occurrences %d)"
                                  % (bi, list(impl), list(ref[0]), n_in, total), case))
             return out, {"merges": ref[3], "dups": ref[1], "open": ref[4], "n": n_in}
@@ -202,8 +241,13 @@ def histories(draw):
 
 
 def run_shard(col, cfg):
+    n_seen = [0]
+
     def body(x):
         case, _ = x
+        n_seen[0] += 1
+        if n_seen[0] % cfg.get("via_aggregator_every", 8) == 0:
+            case = dict(case, via="aggregator")
         vs, info = analyse(case)
         kinds = []
         if info["merges"]:
@@ -217,6 +261,7 @@ def run_shard(col, cfg):
             kinds.append("identical-batch-redelivered")
         if any(not b for b in nb):
             kinds.append("has-empty-batch")
+        kinds.append("via:" + case.get("via", "model"))
         kinds.append("entries:%s" % ("0" if info["n"] == 0 else "1-5" if info["n"] <= 5 else "6-15" if info["n"] <= 15 else "16+"))
         col.record(case, bool(info["merges"] and info["dups"]), classes=kinds, violations=vs)
 
@@ -226,12 +271,13 @@ def run_shard(col, cfg):
 def shrink_hints(case):
     # drop whole batches / merge all batches into one
     b = case["batches"]
+    extra = {"via": case["via"]} if "via" in case else {}
     for i in range(len(b)):
-        yield {"batches": b[:i] + b[i + 1:]}
+        yield dict({"batches": b[:i] + b[i + 1:]}, **extra)
     for bi, batch in enumerate(b):
         for ei in range(len(batch)):
-            yield {"batches": b[:bi] + [batch[:ei] + batch[ei + 1:]] + b[bi + 1:]}
+            yield dict({"batches": b[:bi] + [batch[:ei] + batch[ei + 1:]] + b[bi + 1:]}, **extra)
     # normalise times to small integers keeping their order
     ts = sorted({e[2] for batch in b for e in batch})
     rank = {t: float(i) for i, t in enumerate(ts)}
-    yield {"batches": [[[e[0], e[1], rank[e[2]]] for e in batch] for batch in b]}
+    yield dict({"batches": [[[e[0], e[1], rank[e[2]]] for e in batch] for batch in b]}, **extra)
